@@ -354,3 +354,11 @@ def target_dataframe_pipeline():
 
 def targets():      # noqa: F811
     return _targets_without_pipeline() + [target_dataframe_pipeline()]
+
+
+_targets_without_line_parsers = targets
+
+
+def targets():      # noqa: F811
+    from . import lineparsers
+    return _targets_without_line_parsers() + lineparsers.targets()
